@@ -1,0 +1,84 @@
+//go:build verif
+// +build verif
+
+package deflate
+
+// Verification hooks (build tag verif only).  Nothing here is compiled into a
+// normal build.  The methods hang off *Writer so that a harness outside the
+// module's internal tree can reach them through the alias flate.Writer.
+
+// VerifGen describes one call of the match finder as seen by the compressor.
+type VerifGen struct {
+	Flush     bool
+	Input     []byte // copy of input[:len]
+	Processed int
+	Offset    int
+	NOffset   int
+	MaxToken  int
+	Before    []uint32    // tokens passed in
+	After     []uint32    // tokens returned
+	HistLit   [513]uint32 // histogram after the call
+	HistDist  [31]uint32
+	HistLit0  [513]uint32 // histogram before the call
+	HistDist0 [31]uint32
+}
+
+type verifRecorder struct {
+	inner lz77compressor
+	sink  func(VerifGen)
+}
+
+func (r *verifRecorder) generate(flush bool, input []byte, processed int, offset int, tokens []token, maxToken int) (int, []token) {
+	g := VerifGen{Flush: flush, Processed: processed, Offset: offset, MaxToken: maxToken}
+	g.Input = append([]byte(nil), input...)
+	g.Before = make([]uint32, len(tokens))
+	for i, t := range tokens {
+		g.Before[i] = uint32(t)
+	}
+	h := r.inner.histogram()
+	g.HistLit0 = h.literalCodes
+	g.HistDist0 = h.distanceCodes
+	n, nt := r.inner.generate(flush, input, processed, offset, tokens, maxToken)
+	g.NOffset = n
+	g.After = make([]uint32, len(nt))
+	for i, t := range nt {
+		g.After[i] = uint32(t)
+	}
+	g.HistLit = h.literalCodes
+	g.HistDist = h.distanceCodes
+	r.sink(g)
+	return n, nt
+}
+
+func (r *verifRecorder) reset()                { r.inner.reset() }
+func (r *verifRecorder) histogram() *histogram { return r.inner.histogram() }
+
+// VerifRecord makes the writer report every match-finder call to sink.  It
+// returns false when the writer does not use fastgo's own LZ77 compressor
+// (Huffman-only, or levels delegated to the standard library).
+func (w *Writer) VerifRecord(sink func(VerifGen)) bool {
+	c, ok := w.lc.(*dynCompressor)
+	if !ok {
+		return false
+	}
+	if r, ok := c.lz77.(*verifRecorder); ok {
+		r.sink = sink
+		return true
+	}
+	c.lz77 = &verifRecorder{inner: c.lz77, sink: sink}
+	return true
+}
+
+// VerifKind reports which engine serves this writer: "dyn", "huff" or "std".
+func (w *Writer) VerifKind() string {
+	if w.w != nil {
+		return "std"
+	}
+	switch w.lc.(type) {
+	case *dynCompressor:
+		return "dyn"
+	case *huffmanOnly:
+		return "huff"
+	}
+	return "?"
+}
